@@ -3,6 +3,7 @@
 package api
 
 import (
+	"encoding/json"
 	"fmt"
 	"net/http/httptest"
 	"net/url"
@@ -113,6 +114,80 @@ func verifC06Exec(op string) string {
 			return "esc"
 		}
 		return "ok " + verifutil.HexS(r)
+	case "paths":
+		// paths <cwdHex> <confs: keyHex:R|S:fmtHex,…> <filesHex,…> | <rx table>
+		cwd := verifutil.UnHexS(f[1])
+		if cwd != verifC06Root {
+			panic("paths only runs in " + verifC06Root)
+		}
+		os.RemoveAll(cwd)
+		if err := os.MkdirAll(cwd, 0o755); err != nil {
+			panic(err)
+		}
+		defer os.RemoveAll(cwd)
+		if err := os.Chdir(cwd); err != nil {
+			panic(err)
+		}
+		defer os.Chdir("/") //nolint:errcheck
+		if f[3] != "-" {
+			for _, h := range strings.Split(f[3], ",") {
+				full := filepath.Join(cwd, verifutil.UnHexS(h))
+				if !strings.HasPrefix(full, cwd+"/") {
+					panic("paths: refusing to create a file outside the sandbox")
+				}
+				os.MkdirAll(filepath.Dir(full), 0o755) //nolint:errcheck
+				if err := os.WriteFile(full, []byte("x"), 0o644); err != nil {
+					panic(err)
+				}
+			}
+		}
+		pcs := map[string]*conf.Path{}
+		for _, e := range strings.Split(f[2], ",") {
+			p := strings.Split(e, ":")
+			key := verifutil.UnHexS(p[0])
+			pc := &conf.Path{Name: key, RecordPath: verifutil.UnHexS(p[2]), RecordFormat: conf.RecordFormatFMP4}
+			if p[1] == "R" {
+				if key == "all" || key == "all_others" {
+					pc.Regexp = regexp.MustCompile("^.*$")
+				} else {
+					pc.Regexp = regexp.MustCompile(key[1:])
+				}
+			}
+			pcs[key] = pc
+		}
+		join := func(names []string) string {
+			if len(names) == 0 {
+				return "-"
+			}
+			h := make([]string, len(names))
+			for i, n := range names {
+				h[i] = verifutil.HexS(n)
+			}
+			sort.Strings(h)
+			return strings.Join(h, ",")
+		}
+		direct := join(recordstore.FindAllPathsWithSegments(pcs))
+		// the API's recordings list
+		a := &API{Parent: verifC06Parent{c: &conf.Conf{Paths: pcs}}}
+		gin.SetMode(gin.ReleaseMode)
+		rec := httptest.NewRecorder()
+		ctx, _ := gin.CreateTestContext(rec)
+		ctx.Request = httptest.NewRequest("GET", "/v3/recordings/list?itemsPerPage=1000", nil)
+		a.onRecordingsList(ctx)
+		var out struct {
+			Items []struct {
+				Name string `json:"name"`
+			} `json:"items"`
+		}
+		api := "err"
+		if rec.Code == 200 && json.Unmarshal(rec.Body.Bytes(), &out) == nil {
+			var names []string
+			for _, it := range out.Items {
+				names = append(names, it.Name)
+			}
+			api = join(names)
+		}
+		return direct + " " + api
 	case "e2e":
 		// e2e <cwdHex> <fmtHex> <nameHex> <confs> <filesHex,…>
 		cwd := verifutil.UnHexS(f[1])
@@ -307,6 +382,142 @@ var verifC06Formats = []string{
 	"recordings/%s/%path", "recordings/sub/../%path/%s", "recordings/%path/../%s", "./%path_%s", "recordings//%path/%s",
 }
 
+// record paths in which %path is followed by '_', '-', '.', nothing or '/'
+var verifC06ListFormats = []string{
+	"recordings/%path_%s", "recordings/%path-%s", "recordings/%path.%s", "recordings/%path%s", "recordings/%path/%s",
+	"rec/%path_%Y-%m-%d_%H-%M-%S-%f", "rec%path_%s", "recordings/%path/x_%s", "/tmp/vc06t/abs/%path_%s", "recordings/%s_%path",
+}
+
+// look-alike files, relative to the directory prefix of the record path; '@' = separator + timestamp text
+// + ".mp4" as the record path of the configuration writes them
+var verifC06ListFiles = []string{
+	"group/@", "group/x@", "@", "..@", ".@", "...@", "a/..@", "a/.@", "..a/b@", "a b@", "a%b@", "caf\xc3\xa9@", "a~b@", "a\\b@",
+	"a//b@", "cam1@", "live/a@", "live/@", "x/y/@", "a/_/@", "g/x@", "-@", "_@", "a/../b@", "/@", "a/./b@", "A.b-c_d/e@",
+	"group/_1700000000.mp4", "x/_2015-05-20_22-15-25-000427.mp4", "1700000000_cam1.mp4", "1700000000_a/.mp4", "1700000000_.mp4",
+	"1700000000_...mp4", "1700000000_../x.mp4", "live/a1700000000.mp4",
+}
+
+func verifC06ListTail(format string) string {
+	i := strings.Index(format, "%path")
+	tail := format[i+len("%path"):]
+	tail = strings.NewReplacer("%Y", "2015", "%m", "05", "%d", "20", "%H", "22", "%M", "15", "%S", "25", "%f", "000427", "%s", "1700000000").Replace(tail)
+	return tail + ".mp4"
+}
+
+func verifC06PathsOp(r *verifutil.Rand) string {
+	type cf struct {
+		key, format string
+		re          bool
+	}
+	format := verifC06ListFormats[r.Intn(len(verifC06ListFormats))]
+	var confs []cf
+	seen := map[string]bool{}
+	for k := 1 + r.Intn(3); k > 0; k-- {
+		key := r.Pick("all_others", "~^.*$", "~^live/(.+)$", "~^[a-z]+/?$", "cam1", "group", "all", "~^(.*)/$", "~^\\.+$")
+		if seen[key] || (key == "all" && seen["all_others"]) || (key == "all_others" && seen["all"]) {
+			continue
+		}
+		seen[key] = true
+		fm := format
+		if r.Chance(1, 4) {
+			fm = verifC06ListFormats[r.Intn(len(verifC06ListFormats))]
+		}
+		confs = append(confs, cf{key, fm, key == "all" || key == "all_others" || strings.HasPrefix(key, "~")})
+	}
+	fileSet := map[string]bool{}
+	add := func(rel string) {
+		full := filepath.Join(verifC06Root, rel)
+		rel2 := strings.TrimPrefix(full, verifC06Root+"/")
+		if !strings.HasPrefix(full, verifC06Root+"/") || strings.ContainsRune(rel2, 0) {
+			return
+		}
+		for ex := range fileSet {
+			if strings.HasPrefix(ex, rel2+"/") || strings.HasPrefix(rel2, ex+"/") {
+				return
+			}
+		}
+		fileSet[rel2] = true
+	}
+	for _, c := range confs {
+		dir := recordstore.CommonPath(c.format)
+		if filepath.IsAbs(dir) {
+			dir = strings.TrimPrefix(dir, verifC06Root+"/")
+		}
+		for k := 2 + r.Intn(5); k > 0; k-- {
+			add(dir + "/" + strings.Replace(verifC06ListFiles[r.Intn(len(verifC06ListFiles))], "@", verifC06ListTail(c.format), 1))
+		}
+		if r.Chance(1, 3) { // glued to the prefix, no separator
+			add(dir + strings.Replace(verifC06ListFiles[r.Intn(len(verifC06ListFiles))], "@", verifC06ListTail(c.format), 1))
+		}
+	}
+	add("canary_1700000000.mp4")
+	files := make([]string, 0, len(fileSet))
+	for k := range fileSet {
+		files = append(files, k)
+	}
+	sort.Strings(files)
+	// regexp oracle over a pool of candidate names
+	pool := map[string]struct{}{}
+	for _, c := range confs {
+		pool[c.key] = struct{}{}
+		af := c.format + ".mp4"
+		if !filepath.IsAbs(af) {
+			af = filepath.Join(verifC06Root, af)
+		}
+		for _, rel := range files {
+			var p recordstore.Path
+			if p.Decode(af, filepath.Join(verifC06Root, rel)) {
+				pool[p.Path] = struct{}{}
+			}
+			cut := []int{0, len(rel)}
+			for j := 0; j < len(rel); j++ {
+				if strings.ContainsRune("/_-.", rune(rel[j])) {
+					cut = append(cut, j, j+1)
+				}
+			}
+			for _, a := range cut {
+				for _, b := range cut {
+					if a < b && b-a < 30 {
+						pool[rel[a:b]] = struct{}{}
+					}
+				}
+			}
+		}
+	}
+	var rx []string
+	var cc []string
+	for _, c := range confs {
+		kind := "S"
+		if c.re {
+			kind = "R"
+			var re *regexp.Regexp
+			if c.key == "all" || c.key == "all_others" {
+				re = regexp.MustCompile("^.*$")
+			} else {
+				re = regexp.MustCompile(c.key[1:])
+			}
+			for s := range pool {
+				hit := "0"
+				if re.FindStringSubmatch(s) != nil {
+					hit = "1"
+				}
+				rx = append(rx, verifutil.HexS(c.key)+"~"+verifutil.HexS(s)+"="+hit)
+			}
+		}
+		cc = append(cc, verifutil.HexS(c.key)+":"+kind+":"+verifutil.HexS(c.format))
+	}
+	sort.Strings(rx)
+	rxS := "-"
+	if len(rx) > 0 {
+		rxS = strings.Join(rx, ";")
+	}
+	fh := make([]string, len(files))
+	for k, s := range files {
+		fh[k] = verifutil.HexS(s)
+	}
+	return fmt.Sprintf("paths %s %s %s | %s", verifutil.HexS(verifC06Root), strings.Join(cc, ","), strings.Join(fh, ","), rxS)
+}
+
 func verifC06Gen(r *verifutil.Rand, i int, thorough bool) []string {
 	name := verifC06Name(r)
 	ops := []string{"reset"}
@@ -369,6 +580,7 @@ func verifC06Gen(r *verifutil.Rand, i int, thorough bool) []string {
 			}
 		}
 	}
+	ops = append(ops, verifC06PathsOp(r))
 	ops = append(ops, fmt.Sprintf("e2e %s %s %s %s %s", verifutil.HexS(verifC06Root), verifutil.HexS(format), verifutil.HexS(name), col, strings.Join(fh, ",")))
 	return ops
 }
@@ -377,7 +589,7 @@ func TestVerifC06(t *testing.T) {
 	wd, _ := os.Getwd()
 	defer os.Chdir(wd) //nolint:errcheck
 	verifutil.Main(t, &verifutil.Harness{
-		ID: "C06", Exec: verifC06Exec, Gen: verifC06Gen, Quick: 1200, Thorough: 25000,
+		ID: "C06", Exec: verifC06Exec, Gen: verifC06Gen, Quick: 900, Thorough: 20000,
 		Class: func(op, impl string) string {
 			f := strings.Fields(op)
 			a := strings.Fields(impl)
@@ -386,6 +598,11 @@ func TestVerifC06(t *testing.T) {
 				return f[0] + "/" + a[0]
 			case "inside":
 				return "inside/" + a[0]
+			case "paths":
+				if a[0] == "-" {
+					return "paths/none"
+				}
+				return "paths/names"
 			case "e2e":
 				if len(a) == 3 {
 					d := "deleted"
